@@ -105,19 +105,20 @@ fn main() {
         }
     }
     if which == "all" || which == "C19" {
-        for s in strings(&["/", "a", "b\u{e9}"], 6) {
+        for s in strings(&["/", "a", "b\u{e9}"], 5) { for prior in [None, Some(""), Some("/"), Some("a"), Some("/a"), Some("a/"), Some("//")] {
             let mut req: CoapRequest<&'static str> = CoapRequest::new();
-            req.message.add_option(CoapOption::UriPath, b"old".to_vec());
+            match prior { None => req.message.add_option(CoapOption::UriPath, b"old".to_vec()), Some(p) => req.set_path(p) }
             req.message.add_option(CoapOption::UriHost, b"h".to_vec());
             req.set_path(&s);
+            let ctx = format!("set_path({:?}) after {:?}", s, prior);
             let want = ref_path_segments(&s);
             let got: Vec<String> = req.message.get_option(CoapOption::UriPath).map(|l| l.iter().map(|v| String::from_utf8_lossy(v).into_owned()).collect()).unwrap_or_default();
-            if got != want { found("set_path-options", format!("{:?}: Uri-Path options {:?}, expected {:?}", s, got, want)); }
-            if req.message.get_option(CoapOption::UriHost).map(|l| l.len()) != Some(1) { found("set_path-touched-other-option", format!("{:?}", s)); }
+            if got != want { found("set_path-options", format!("{}: Uri-Path options {:?}, expected {:?}", ctx, got, want)); }
+            if req.message.get_option(CoapOption::UriHost).map(|l| l.len()) != Some(1) { found("set_path-touched-other-option", ctx); }
             let back = req.get_path();
             let expect = s.strip_prefix('/').unwrap_or(&s);
-            if back != expect { found("get_path-after-set_path", format!("{:?}: get_path {:?}, expected {:?}", s, back, expect)); }
-        }
+            if back != expect { found("get_path-after-set_path", format!("{}: get_path {:?}, expected {:?}", ctx, back, expect)); }
+        } }
     }
     if which == "all" || which == "C06" {
         for s in strings(&["a", "\u{e9}", "\u{1F600}", "/"], 4) {
